@@ -203,3 +203,192 @@ def replay_tally_register(rec):
                     return {"reproduced": True, "input": {"observations": seq, "reinitialised_before": reinit},
                             "observed": "getter %s returned %r, exact reference %r" % mm}
     return {"reproduced": False, "note": "no failing history found (n<=7 candidate sequences)"}
+
+
+# ------------------------------------------------------------------ C08 publish/subscribe
+def pubsub_search(seed_base=0, rounds=400, max_ops=14):
+    """Bounded random exploration of subscribe / unsubscribe / fire histories with re-entrant
+    listeners against a reference subscription model.  Returns a failing history or None."""
+    from pydsol.core.pubsub import EventProducer, EventListener, EventType, Event, TimedEvent, EventError
+
+    types = getattr(pubsub_search, "_types", None)
+    if types is None:
+        types = [EventType("RT%d" % i) for i in range(3)]
+        pubsub_search._types = types
+
+    class L(EventListener):
+        def __init__(self, name, world):
+            self.name, self.world, self.script = name, world, []
+
+        def notify(self, event):
+            w = self.world
+            w["log"].append((self.name, types.index(event.event_type), event.content,
+                             getattr(event, "timestamp", None)))
+            if self.script and w["depth"] < 2:
+                act = self.script.pop(0)
+                w["depth"] += 1
+                try:
+                    w["apply"](act)
+                finally:
+                    w["depth"] -= 1
+
+    for r in range(rounds):
+        rng = random.Random(seed_base * 100003 + r)
+        prod = EventProducer()
+        ref = {}                      # type index -> [listener names]
+        world = {"log": [], "depth": 0}
+        ls = [L("l%d" % i, world) for i in range(3)]
+        ref_log = []
+        history = []
+
+        def ref_fire(t, content, ts, scripts_view):
+            # reference semantics: deliver to the snapshot, in order; nested actions of the
+            # listeners are performed by the real listeners (they call apply), so the reference
+            # only mirrors the state changes through apply as well
+            pass
+
+        def apply(act):
+            kind = act[0]
+            if kind == "add":
+                _, t, l = act
+                prod.add_listener(types[t], ls[l])
+                lst = ref.setdefault(t, [])
+                if "l%d" % l not in lst:
+                    lst.append("l%d" % l)
+            elif kind == "rem":
+                _, t, l = act
+                prod.remove_listener(types[t], ls[l])
+                if t in ref and "l%d" % l in ref[t]:
+                    ref[t].remove("l%d" % l)
+                    if not ref[t]:
+                        del ref[t]
+            elif kind == "remall":
+                _, t, l = act
+                prod.remove_all_listeners(None if t is None else types[t], None if l is None else ls[l])
+                if t is None and l is None:
+                    ref.clear()
+                elif t is None:
+                    for k in list(ref):
+                        if "l%d" % l in ref[k]:
+                            ref[k].remove("l%d" % l)
+                            if not ref[k]:
+                                del ref[k]
+                elif l is None:
+                    ref.pop(t, None)
+                else:
+                    if t in ref and "l%d" % l in ref[t]:
+                        ref[t].remove("l%d" % l)
+                        if not ref[t]:
+                            del ref[t]
+            elif kind in ("fire", "firet"):
+                _, t, content, ts = act
+                snapshot = list(ref.get(t, []))
+                # expected deliveries of THIS firing: snapshot order; nested effects happen in between
+                exp = [(n, t, content, ts if kind == "firet" else None) for n in snapshot]
+                start = len(world["log"])
+                marks = world.setdefault("marks", [])
+                marks.append((start, exp, kind))
+                if kind == "fire":
+                    prod.fire(types[t], content)
+                else:
+                    prod.fire_timed(ts, types[t], content)
+                # deliveries of this frame = entries logged at depth of this frame; we check the
+                # subsequence condition: exp must be a subsequence of the new log entries and
+                # every listener of the snapshot got exactly one entry from this frame
+                new = world["log"][start:]
+                mine = [e for e in new if e[1] == t and e[2] == content]
+                names = [e[0] for e in mine]
+                if world["depth"] == 0:
+                    # top level: content values are unique per firing, so 'mine' is exactly this frame
+                    if names != snapshot:
+                        raise AssertionError(("delivery", act, snapshot, names))
+                    if kind == "firet" and any(e[3] != ts for e in mine):
+                        raise AssertionError(("timestamp", act, mine))
+            if prod.has_listeners() != bool(ref):
+                raise AssertionError(("has_listeners", act, dict(ref)))
+        world["apply"] = apply
+        counter = [0]
+
+        def rand_act(nested=False):
+            k = rng.random()
+            t, l = rng.randrange(3), rng.randrange(3)
+            if k < 0.35:
+                return ("add", t, l)
+            if k < 0.5:
+                return ("rem", t, l)
+            if k < 0.62:
+                return ("remall", rng.choice([None, t]), rng.choice([None, l]))
+            counter[0] += 1
+            if k < 0.85:
+                return ("fire", t, "c%d" % counter[0], None)
+            return ("firet", t, "c%d" % counter[0], float(rng.randrange(100)))
+        try:
+            for _ in range(rng.randrange(3, max_ops)):
+                for lst in ls:
+                    if rng.random() < 0.5:
+                        lst.script = [rand_act(True) for _ in range(rng.randrange(0, 3))]
+                act = rand_act()
+                history.append((act, [list(x.script) for x in ls]))
+                apply(act)
+        except AssertionError as e:
+            return {"history": history, "failure": repr(e.args[0])}
+        except EventError:
+            pass
+        except Exception as e:
+            return {"history": history, "failure": "%s: %s" % (type(e).__name__, e)}
+    return None
+
+
+def event_metadata_search(rounds=3000):
+    from pydsol.core.pubsub import EventType, Event, TimedEvent, EventError
+    rng = random.Random(5)
+    pool_types = [int, str, float, bool]
+    vals = [1, "a", 2.5, True, None, [1]]
+    n = [0]
+    for r in range(rounds):
+        keys = rng.sample(["a", "b", "c", "d"], rng.randrange(0, 4))
+        md = {k: rng.choice(pool_types) for k in keys} if rng.random() < 0.85 else None
+        n[0] += 1
+        et = EventType("RM%d_%d" % (id(rng) % 1000, n[0]), md)
+        ckeys = rng.sample(["a", "b", "c", "d", "e"], rng.randrange(0, 5))
+        content = {k: rng.choice(vals) for k in ckeys} if rng.random() < 0.8 else rng.choice([1, "x", None, [1, 2]])
+        check = rng.random() < 0.8
+        ok = True
+        if md is not None:
+            if not isinstance(content, dict):
+                ok = False
+            elif check:
+                ok = (set(content) == set(md) and len(content) == len(md)
+                      and all(content[k] is not None and isinstance(content[k], md[k]) for k in md))
+        ts = rng.choice([1.5, 3, "bad"])
+        for mk, okts in ((lambda: Event(et, content, check), True),
+                         (lambda: TimedEvent(ts, et, content, check), ts != "bad")):
+            try:
+                e = mk()
+                created = True
+            except EventError:
+                created = False
+            if created != (ok and okts):
+                return {"metadata": None if md is None else {k: v.__name__ for k, v in md.items()},
+                        "content": repr(content), "check": check, "timestamp": repr(ts),
+                        "failure": "event created=%s, declared rule says %s" % (created, ok and okts)}
+            if created and hasattr(e, "timestamp") and e.timestamp != ts:
+                return {"failure": "timestamp not carried", "timestamp": repr(ts)}
+    return None
+
+
+@replayer(r"(EventProducer|Event|TimedEvent)\..*")
+def replay_pubsub(rec):
+    q = rec["function"]
+    if q.startswith("Event.") or q.startswith("TimedEvent."):
+        f = event_metadata_search()
+        if f:
+            return {"reproduced": True, "input": f, "observed": f["failure"]}
+    for seed in range(3):
+        f = pubsub_search(seed_base=seed)
+        if f:
+            return {"reproduced": True, "input": f, "observed": f["failure"]}
+    f = event_metadata_search()
+    if f:
+        return {"reproduced": True, "input": f, "observed": f["failure"]}
+    return {"reproduced": False, "note": "no failing subscribe/fire history found (1200 random histories with re-entrant listeners)"}
